@@ -59,6 +59,18 @@ Theorem C13_cache_by_canonical : forall fs canon prog_of st p1 st1 sid p2,
   load_real_file fs canon prog_of st1 p2 = (st1, inr sid).
 Proof. exact cache_by_canonical. Qed.
 
+(* in EVERY run of the session (any world, any -J list, any main file, any outcome,
+   errors included): no canonical path is loaded (read + parsed + registered) twice,
+   and no file is evaluated (its std.trace line printed) twice — however many
+   spellings and importers reach it *)
+Theorem C13_loaded_once : forall fs canon prog_of fuel jpaths main,
+  NoDup (loaded_cps (fst (run_main fs canon prog_of fuel jpaths main))).
+Proof. exact loaded_once. Qed.
+
+Theorem C13_evaluated_once : forall fs canon prog_of fuel jpaths main,
+  NoDup (evaled (fst (run_main fs canon prog_of fuel jpaths main))).
+Proof. exact evaluated_once. Qed.
+
 Theorem C13_thisfile_is_as_loaded : forall fs canon prog_of st p1 st1 sid,
   load_real_file fs canon prog_of st p1 = (st1, inr sid) ->
   assoc_path (canon p1) (s_cache st) = None ->
@@ -96,6 +108,18 @@ Theorem C13_importstr_is_lossy_decode : forall fs st from p q b,
   cb_import_str fs st from p = (with_log st (EvRead q), inr (lossy b)).
 Proof. exact importstr_is_lossy_decode. Qed.
 
+(* on a file that is well-formed UTF-8 the lossy decoding is the exact text: every
+   string of Unicode scalar values survives encode-then-importstr unchanged *)
+Theorem C13_lossy_of_valid_utf8 : forall s,
+  forallb is_scalar s = true -> lossy (utf8_enc s) = s.
+Proof. exact lossy_of_valid_utf8. Qed.
+
+Example C13_nonvacuous_lossy :
+  forallb is_scalar [104; 233; 2047; 2048; 26085; 55295; 57344; 65533; 65536; 119070; 1114111] = true /\
+  utf8_enc [233; 26085; 119070] = [195; 169; 230; 151; 165; 240; 157; 132; 158] /\
+  lossy [65; 192; 128; 237; 160; 128; 244; 144; 128; 128; 230; 151; 90; 240; 157; 132] = [65; 65533; 65533; 65533; 65533; 65533; 65533; 65533; 65533; 65533; 65533; 90; 65533].
+Proof. vm_compute. repeat split. Qed.
+
 Theorem C13_importbin_exact : forall fs st from p q b,
   find_import fs st from p = Some q -> fs q = File b ->
   cb_import_bin fs st from p = (with_log st (EvRead q), inr b).
@@ -128,7 +152,7 @@ Example C13_nonvacuous :
                 VArr [VStr (str_of "yb"); VStr (str_of "b/y.libsonnet"); VBytes [1; 2]];
                 VStr [104; 65533; 105; 233]; VBytes [104; 255; 105; 195; 169]; VBytes [1; 2]]) /\
   eval_tags st = [str_of "main"; str_of "x"; str_of "yb"] /\
-  count_loaded st = 3%nat.
+  count_loaded st = 3%nat /\ length (loaded_cps st) = 3%nat /\ evaled st = [2; 1; 0].
 Proof. vm_compute. repeat split. Qed.
 
 (* with the options in the other order, a wins *)
@@ -174,10 +198,14 @@ Print Assumptions C13_importer_dir_first.
 Print Assumptions C13_rightmost_J_wins.
 Print Assumptions C13_absolute_bypass.
 Print Assumptions C13_cache_by_canonical.
+Print Assumptions C13_loaded_once.
+Print Assumptions C13_evaluated_once.
 Print Assumptions C13_thisfile_is_as_loaded.
 Print Assumptions C13_missing_is_import_error_at_site.
 Print Assumptions C13_unreadable_is_import_error_at_site.
 Print Assumptions C13_importstr_is_lossy_decode.
+Print Assumptions C13_lossy_of_valid_utf8.
+Print Assumptions C13_nonvacuous_lossy.
 Print Assumptions C13_importbin_exact.
 Print Assumptions C13_resolution_deterministic.
 Print Assumptions C13_resolution_depends_only_on_existence.
